@@ -136,14 +136,14 @@ def gen_side(ex, n, iters, max_len, kinds, side, name, ts_span=None, payload=Non
 
 # ------------------------------------------------------------------------------------ Zip (C09)
 
-def zip_harness(w, nl, nr, iters, max_len, timed=False, cut='each'):
+def zip_harness(w, nl, nr, iters, max_len, timed=False, cut='each', wm=False):
     znew = w.impls[(None, 'Zip')]['new'][0]
     setup = w.impls[('Operator', 'Zip')]['setup'][0]
     nxt = w.impls[('Operator', 'Zip')]['next'][0]
     hlib.check_se_table(w)
 
     def h(ex):
-        kinds = 'T' if timed else 'I'
+        kinds = ('TW' if wm else 'T') if timed else 'I'
         sl = gen_side(ex, nl, iters, max_len, kinds, 1, 'l', (1000, 5) if timed else None)
         sr = gen_side(ex, nr, iters, max_len, kinds, 2, 'r', (1000, 5) if timed else None)
         z = ex.call_function(znew, [Int('u64', 1), Int('u64', 2), False, False, none()])
@@ -175,6 +175,10 @@ def zip_harness(w, nl, nr, iters, max_len, timed=False, cut='each'):
                       'arrival': [(ev[1], ev[2], len(ev[3])) for ev in net.log if ev[0] == 'batch'],
                       'output': [repr(e) for e in out]}
         hlib.check_grammar(ex, out, iters, 'Zip output')
+        if wm:
+            hlib.check_wm_contract(ex, out, 'Zip output')          # C06
+            if any(e.variant == 'Watermark' for e in out):
+                hlib.cover(ex, 'watermark')
         # consumption order per side and iteration
         order = {1: [[] for _ in range(iters)], 2: [[] for _ in range(iters)]}
         itn = {1: [0] * nl, 2: [0] * nr}
@@ -213,6 +217,17 @@ def zip_harness(w, nl, nr, iters, max_len, timed=False, cut='each'):
                           'zip pair timestamp is not the max of the two', sx)
         return sx()
     return h
+
+
+def zip_wm_tasks(tier, role):
+    cfgs = [dict(nl=1, nr=1, iters=1, max_len=2, timed=True, wm=True)]
+    if tier != 'quick':
+        cfgs += [dict(nl=1, nr=1, iters=2, max_len=[3, 1], timed=True, wm=True), dict(nl=2, nr=1, iters=1, max_len=2, timed=True, wm=True)]
+    return [Task('zip_wm_%dx%d_i%d' % (c['nl'], c['nr'], c['iters']), 'zip_harness', c,
+                 bounds='Zip over Start<BinaryStartReceiver>: %d left and %d right upstream replicas, %d iterations x <=%s '
+                        'elements each Timestamped or Watermark (contract respected per replica, timestamps symbolic in a window '
+                        'of 5), one element per batch, every arrival interleaving' % (c['nl'], c['nr'], c['iters'], c['max_len']),
+                 role=role, opts={'covers': ['paired', 'watermark']}, budget=300) for c in cfgs]
 
 
 def zip_tasks(tier, role):
